@@ -41,7 +41,8 @@ def run(ctx):
     from . import c15 as _c15
     from .c03 import _Only
     from .c06 import _run_as
-    _run_as(_c15, _Only(ctx, "C16-R6", ("anchor|ext-test", "ext-exact", "ext-list", "ext-of-entry", "ext-unmodified", "push-only-match", "anchor|find", "anchor|walk-loop")), ctx)
+    _run_as(_c15, _Only(ctx, "C16-R6", ("anchor|ext-test", "ext-exact", "ext-list", "ext-of-entry", "ext-unmodified", "push-only-match", "anchor|find", "anchor|walk-loop",
+                                        "regular-file-test", "link-following-test", "follow-links", "walk-errors", "iter-chain", "one-walk", "walk-root")), ctx)
     wiring = {
         "default_use_cache": ("Config", 1),
         "default_rust_structured": ("RustConfig", 0),
